@@ -6,6 +6,7 @@ package vkit
 
 import (
 	"encoding/json"
+	"flag"
 	"fmt"
 	"os"
 	"path/filepath"
@@ -57,6 +58,8 @@ type Run struct {
 	extra         map[string]any
 	phases        []map[string]any
 	inconclusive  []string
+	early         map[string]*failRec // first failure of each class, noted the moment it happens (for the watchdog)
+	finished      bool
 }
 
 func verifDir() string {
@@ -87,7 +90,38 @@ func Start(id string) *Run {
 	r.loadKnown()
 	// the checks allocate millions of short-lived error values; memory is plentiful, GC time is not
 	debug.SetGCPercent(800)
+	if f := flag.Lookup("test.timeout"); f != nil && r.Replay == "" && os.Getenv("VERIF_COLD") == "" {
+		if d, err := time.ParseDuration(f.Value.String()); err == nil && d > 2*time.Minute {
+			go r.watchdog(d - 45*time.Second)
+		}
+	}
 	return r
+}
+
+// watchdog: shortly before go test's own time limit kills the process (and with it everything recorded so far), the
+// violations found up to then are reported. A library call that never returns would otherwise turn a run that has already
+// seen violations into an inconclusive one. Running out of time is itself never reported as a violation.
+func (r *Run) watchdog(after time.Duration) {
+	time.Sleep(after)
+	r.mu.Lock()
+	if r.finished {
+		r.mu.Unlock()
+		return
+	}
+	for class, f := range r.early {
+		if r.fails[class] == nil {
+			r.fails[class] = f
+		}
+	}
+	n := r.reportViolations()
+	fmt.Printf("INCONCLUSIVE-PART property=%s the run did not finish within its time limit (after %s): a call that does not return, or a machine that is too slow; %d violation classes recorded before that are reported above\n", r.ID, after, n)
+	os.Exit(3)
+}
+
+// reportViolations writes the replay files and prints the VIOLATION lines of everything in r.fails (r.mu held).
+func (r *Run) reportViolations() int {
+	_, violations := r.violationLines()
+	return len(violations)
 }
 
 // Thorough reports whether the thorough tier was requested.
@@ -240,6 +274,17 @@ func (w *W) Fail(c any, class, detail string) {
 		if f.caseJSON == nil || smaller(b, f.caseJSON) {
 			f.caseJSON, f.detail = b, detail
 		}
+	}
+	if f.count == 1 {
+		// known to the run at once (not only when this worker ends), so that the watchdog can report it
+		w.r.mu.Lock()
+		if w.r.early == nil {
+			w.r.early = map[string]*failRec{}
+		}
+		if w.r.early[class] == nil {
+			w.r.early[class] = &failRec{count: 1, caseJSON: f.caseJSON, detail: f.detail}
+		}
+		w.r.mu.Unlock()
 	}
 }
 
@@ -455,33 +500,9 @@ func (r *Run) LoadReplay(c any) error {
 func (r *Run) Finish(t *testing.T) {
 	r.mu.Lock()
 	defer r.mu.Unlock()
+	r.finished = true
 	wall := time.Since(r.start).Seconds()
-
-	classes := make([]string, 0, len(r.fails))
-	for c := range r.fails {
-		classes = append(classes, c)
-	}
-	sort.Strings(classes)
-	replayDir := os.Getenv("VERIF_REPLAY_DIR")
-	if replayDir == "" {
-		replayDir = filepath.Join(verifDir(), "replays")
-	}
-	_ = os.MkdirAll(replayDir, 0o755)
-	var violations []map[string]any
-	for _, c := range classes {
-		f := r.fails[c]
-		rf := replayFile{Property: r.ID, Class: c, Detail: f.detail, Count: f.count, Seed: r.Seed, Tier: r.Tier, Case: f.caseJSON}
-		b, _ := json.MarshalIndent(rf, "", " ")
-		path := filepath.Join(replayDir, fmt.Sprintf("%s-%s-%08x.json", r.ID, sanitize(c), fnv32(f.caseJSON)))
-		if r.Replay != "" {
-			path = r.Replay
-		} else if err := os.WriteFile(path, b, 0o644); err != nil {
-			fmt.Printf("cannot write replay file %s: %v\n", path, err)
-		}
-		fmt.Printf("VIOLATION property=%s replay=%s\n", r.ID, path)
-		fmt.Printf("  class=%s failing_cases=%d\n  case=%s\n  %s\n", c, f.count, truncate(string(f.caseJSON), 600), truncate(f.detail, 1500))
-		violations = append(violations, map[string]any{"class": c, "count": f.count, "replay": path, "detail": truncate(f.detail, 400)})
-	}
+	classes, violations := r.violationLines()
 	knownKeys := make([]string, 0, len(r.knownHit))
 	var knownTotal int64
 	for k, n := range r.knownHit {
@@ -505,6 +526,34 @@ func (r *Run) Finish(t *testing.T) {
 	if len(classes) > 0 {
 		t.Fail()
 	}
+}
+
+// violationLines writes one replay file per failure class and prints its VIOLATION line (r.mu held).
+func (r *Run) violationLines() (classes []string, violations []map[string]any) {
+	for c := range r.fails {
+		classes = append(classes, c)
+	}
+	sort.Strings(classes)
+	replayDir := os.Getenv("VERIF_REPLAY_DIR")
+	if replayDir == "" {
+		replayDir = filepath.Join(verifDir(), "replays")
+	}
+	_ = os.MkdirAll(replayDir, 0o755)
+	for _, c := range classes {
+		f := r.fails[c]
+		rf := replayFile{Property: r.ID, Class: c, Detail: f.detail, Count: f.count, Seed: r.Seed, Tier: r.Tier, Case: f.caseJSON}
+		b, _ := json.MarshalIndent(rf, "", " ")
+		path := filepath.Join(replayDir, fmt.Sprintf("%s-%s-%08x.json", r.ID, sanitize(c), fnv32(f.caseJSON)))
+		if r.Replay != "" {
+			path = r.Replay
+		} else if err := os.WriteFile(path, b, 0o644); err != nil {
+			fmt.Printf("cannot write replay file %s: %v\n", path, err)
+		}
+		fmt.Printf("VIOLATION property=%s replay=%s\n", r.ID, path)
+		fmt.Printf("  class=%s failing_cases=%d\n  case=%s\n  %s\n", c, f.count, truncate(string(f.caseJSON), 600), truncate(f.detail, 1500))
+		violations = append(violations, map[string]any{"class": c, "count": f.count, "replay": path, "detail": truncate(f.detail, 400)})
+	}
+	return classes, violations
 }
 
 func (r *Run) writeEvidence(wall float64, violations []map[string]any, knownTotal int64) {
@@ -869,8 +918,24 @@ func (w *W) RetainBytes(c any, label string, got []byte, want string) {
 		if cur := p.current(); cur != p.want {
 			w.Fail(p.c, "earlier-result-changed-by-later-call", fmt.Sprintf("%s: a result that read %q when it was returned reads %q after a later call", label, p.want, cur))
 		}
+		// the earlier result belongs to the caller, who now reuses its storage for something else
+		for i := range p.bytes {
+			p.bytes[i] = '#'
+		}
 	}
 	w.retained[label] = &retained{c: c, bytes: got, isBytes: true, want: want}
+}
+
+// Owned checks that a returned byte slice belongs to the caller: the caller overwrites it, and produce() - the same call
+// again - must still give want. A library that hands out storage it keeps using would now show the caller's scribble.
+func (w *W) Owned(c any, label string, got []byte, want string, produce func() ([]byte, error)) {
+	for i := range got {
+		got[i] = '#'
+	}
+	again, err := produce()
+	if err != nil || string(again) != want {
+		w.Fail(c, "result-storage-shared", fmt.Sprintf("%s: after the caller overwrote the bytes it had been given, the same call gives %q, %v; want %q", label, again, err, want))
+	}
 }
 
 type retained struct {
